@@ -60,6 +60,12 @@ type pathState struct {
 	nameCount map[string]int
 	choices   map[string]string // Choice inputs (name -> value) for replay files
 	concrete  map[*term]uint64  // values chosen by concretize on this path
+	model        map[string]uint64 // cached model of (a prefix of) the path condition
+	modelPC      int
+	modelFor     *term
+	evalc        *evalCtx
+	modelChecked int
+	modelOK      bool
 
 	steps     int64
 	maxSteps  int64
@@ -230,16 +236,27 @@ func (i *interpreter) decide(c *term) bool {
 		p.dec = append(p.dec, d)
 		p.pos++
 	} else {
-		rT, _ := i.check(c, false)
+		// a cached model of the path condition decides one side for free
+		rT, rF := resUnknown, resUnknown
+		knownT, knownF := false, false
+		if v, ok := i.evalUnderModel(c); ok {
+			if v {
+				rT, knownT = resSat, true
+			} else {
+				rF, knownF = resSat, true
+			}
+		}
+		if !knownT {
+			rT = i.checkM(c)
+		}
 		var d Decision
 		if rT == resUnsat {
 			d = Decision{Side: false, Forced: true}
 		} else {
-			rF, _ := i.check(nc, false)
+			if !knownF {
+				rF = i.checkM(nc)
+			}
 			if rF == resUnsat {
-				if rT != resSat {
-					// c not refuted, ¬c refuted: c is forced
-				}
 				d = Decision{Side: true, Forced: true}
 			} else {
 				if rT != resSat || rF != resSat {
@@ -260,6 +277,58 @@ func (i *interpreter) decide(c *term) bool {
 		i.addPC(nc)
 	}
 	return side
+}
+
+// checkM is a feasibility check that refreshes the cached model on sat.
+func (i *interpreter) checkM(extra *term) satResult {
+	res, model := i.check(extra, true)
+	if res == resSat && model != nil {
+		i.path.model = model
+		i.path.modelPC = len(i.path.pc) + 1 // valid once extra has been added
+		i.path.modelFor = extra
+		i.path.evalc = nil
+	}
+	return res
+}
+
+// evalUnderModel evaluates c under the cached model if that model is known to
+// satisfy the current path condition.
+func (i *interpreter) evalUnderModel(c *term) (bool, bool) {
+	p := i.path
+	if p.model == nil {
+		return false, false
+	}
+	// the model was computed for pc[:k] ∧ modelFor; it is valid for the
+	// current pc iff every later pc term evaluates to true under it
+	if p.evalc == nil {
+		p.evalc = newEvalCtx(p.model)
+		p.modelChecked = 0
+		p.modelOK = true
+	}
+	for p.modelChecked < len(p.pc) {
+		v, ok := p.evalc.eval(p.pc[p.modelChecked])
+		if !ok || v == 0 {
+			p.modelOK = false
+			break
+		}
+		p.modelChecked++
+	}
+	if !p.modelOK {
+		p.model = nil
+		p.evalc = nil
+		return false, false
+	}
+	// inputs created after the model was taken are unconstrained: value 0
+	for _, in := range p.inputs {
+		if _, ok := p.model[in.name]; !ok {
+			p.model[in.name] = 0
+		}
+	}
+	v, ok := p.evalc.eval(c)
+	if !ok {
+		return false, false
+	}
+	return v != 0, true
 }
 
 // chooseN is an unconstrained n-way choice (sym.Choice, scheduler choices).
